@@ -105,7 +105,7 @@ package hsrv
 //@   ghost parseErr bool = false
 //@   ghost nParse int = 0
 //@   on call os.ReadFile(name) (b, e): assert(name == s.tmplf && nRead == 0, "reads_the_configured_file"); nRead++; data = b; rdErr = e != nil
-//@   on call template.Template.Parse(tt, text) (p, e): assert(nRead == 1 && !rdErr && text == string(data), "parses_what_was_just_read"); parsed = p; parseErr = e != nil; nParse++
+//@   on call template.Template.Parse(tt, text) (p, e): assert(nRead == 1 && !rdErr && text == string(data), "parses_what_was_just_read"); assert(fresh(tt), "parsed_into_a_brand_new_template_so_nothing_survives_between_requests"); parsed = p; parseErr = e != nil; nParse++
 //@   ensures default_when_unset: imp(s.tmplf == "", t == s.defTmpl && err == nil && nRead == 0)
 //@   ensures reread_every_call: imp(s.tmplf != "", nRead == 1)
 //@   ensures error_means_no_template: imp(s.tmplf != "" && (rdErr || parseErr), err != nil && t == nil)
